@@ -508,9 +508,24 @@ func init() {
 						}
 					}
 				case *ast.ForStmt:
+					inc, isInc := x.Post.(*ast.IncDecStmt)
+					if !isInc || inc.Tok != token.INC {
+						break
+					}
 					if x.Cond != nil && r.exprCalls(info, x.Cond, rcp) {
-						if inc, ok := x.Post.(*ast.IncDecStmt); ok && inc.Tok == token.INC {
-							okWalk = true
+						okWalk = true
+					}
+					// the same as `for ...; ; i++ { if <out of range> || !RangeContainsPrefix { break } ... }`
+					for _, st := range x.Body.List {
+						if is, ok := st.(*ast.IfStmt); ok && r.exprCalls(info, is.Cond, rcp) && len(is.Body.List) > 0 {
+							switch t := is.Body.List[len(is.Body.List)-1].(type) {
+							case *ast.BranchStmt:
+								if t.Tok == token.BREAK {
+									okWalk = true
+								}
+							case *ast.ReturnStmt:
+								okWalk = true
+							}
 						}
 					}
 				}
